@@ -25,6 +25,10 @@ type EntryContext struct {
 	startTime uint64
 	// the rt of this transaction
 	rt uint64
+	// passNotified is set by SlotChain.Entry right before the StatSlots are told that the entry passed.
+	// SlotChain.exit only reports completion for such entries, so an entry that passed because a slot
+	// panicked (and was therefore never counted as passed) is not counted as completed either.
+	passNotified bool
 
 	Resource *ResourceWrapper
 	StatNode StatNode
@@ -120,6 +124,7 @@ func (ctx *EntryContext) Reset() {
 	ctx.err = nil
 	ctx.startTime = 0
 	ctx.rt = 0
+	ctx.passNotified = false
 	ctx.Resource = nil
 	ctx.StatNode = nil
 	ctx.Input.reset()
